@@ -27,6 +27,19 @@ CHECKS = {
              "SSI_multi_setup, order-2m column compared with the system and between gain assignments; the reference/roving split is checked "
              "for every channel count 2..6 and every ordered proper reference subset on the direct call and on every call the setup object makes.",
         ref="3/C03"),
+    "C04": dict(
+        technique="runtime monitoring: metamorphic oracle (one recording cut into setups vs single-setup SD_est; per-setup block recomputation; gain change)",
+        text="Exploration: one coloured-noise recording is cut into 2..4 setups with arbitrary reference layouts and merged by SD_PreGER and by "
+             "FDD_MS/EFDD_MS/pLSCF_MS runs; every line of the merged matrix is compared with SD_est of all channels against the references at the "
+             "same nxseg/pov/estimator; with independent recordings the blocks are recomputed from per-setup SD_est outputs and a gain change "
+             "on one setup must only move the mean reference block.",
+        ref="3/C04"),
+    "C13": dict(
+        technique="runtime monitoring: postconditions on SD_est against an independent Welch implementation + convention workloads (delay, sinusoid)",
+        text="Exploration: every (channel, reference) entry of the 'per' estimate is compared with an independently written Welch estimate; grid, "
+             "shape, bilinearity, g^2 scaling (both estimators), Hermitian PSD, Parseval; multi-channel gain-and-delay records and grid-line "
+             "sinusoids fix the conjugation/pairing convention.",
+        ref="3/C13"),
 }
 
 PENDING_REASON = "check not built yet in this session (work in progress; the design in DESIGN.md section 3 applies)"
